@@ -1076,6 +1076,9 @@ func (v *Decoder) walkNode(ectx evaluationContext, n *html.Node) error {
 			datatypeValue, ok := resolveIRI(ectx, localPrefixMappings, *attrDatatype, nil, localDefaultVocabulary, false, true).(rdf.IRI)
 			if !ok {
 				// TODO warning
+			} else if datatypeValue == rdfiri.LangString_Datatype || datatypeValue == "http://www.w3.org/1999/02/22-rdf-syntax-ns#dirLangString" {
+				// a language-tagged datatype cannot be requested explicitly; fall back to the rules for plain literals
+				attrDatatype = nil
 			} else {
 				datatypeIRI = datatypeValue
 			}
